@@ -43,7 +43,9 @@ Indexes == Pb.indexes                    \* sequence of index names that occur o
 
 NoFault == [kind |-> "none", name |-> "", a |-> 0, b |-> 0]
 Faults ==
-  {NoFault, [kind |-> "extra", name |-> "zz9", a |-> 0, b |-> 0], [kind |-> "positional", name |-> "", a |-> 0, b |-> 0]}
+  {NoFault, [kind |-> "extra", name |-> "zz9", a |-> 0, b |-> 0], [kind |-> "positional", name |-> "", a |-> 0, b |-> 0],
+   \* an extra argument that carries the name of the TARGET tensor (not a parameter: the output is allocated by the call)
+   [kind |-> "extra", name |-> Pb.target, a |-> 1, b |-> 0]}
   \cup {[kind |-> "missing", name |-> Params[i].name, a |-> 0, b |-> 0] : i \in 1..NP}
   \cup {[kind |-> "nontensor", name |-> Params[i].name, a |-> 0, b |-> 0] : i \in 1..NP}
   \cup UNION {{[kind |-> "order", name |-> Params[i].name, a |-> d, b |-> 0] :
